@@ -727,6 +727,9 @@ class Scripts:
                 if k > 0 and pos + k == n and r.random() < 0.6:
                     inh += ' @%d rxend %d' % (r.randint(idx[-1], 7), 1 if crcok else 0)
                     ended = True
+            if r.random() < 0.25:
+                # a delayed or coalesced preamble / sync-address interrupt in the middle of the packet
+                self.emit('env flag1 %d' % r.choice([1, 2, 3]))
             self.emit('irq' + inh)
             # reference consumption (flags sampled before the in-handler arrivals): on FIFO
             # level the handler takes the header and full batches only
